@@ -60,8 +60,14 @@ def build(sym, shape, opts, focus):
     if opts["arch"] in opts["images"]:
         ti.tree.platforms.add(opts["arch"])        # a platform with images must be listed explicitly
     objs = {}
+    owner = ti
+    if opts.get("owner_arch"):
+        # the Variant objects were created for another tree (a tool that builds its variants once and adds them to the tree of
+        # every arch, the source tree included): what is written follows the tree that is written
+        owner = TreeInfo()
+        owner.tree.arch = opts["owner_arch"]
     for vid, uid, parent, typ in SHAPES[shape]:
-        v = Variant(ti)
+        v = Variant(owner)
         v.id = vid
         v.uid = uid
         v.name = text(sym, "name_" + uid.replace("-", "_"), 3, focus)
@@ -191,6 +197,9 @@ def _opts(shape, k):
         images[arch] = ["boot.iso", "Kernel"][: 1 + k % 4 // 2]
         if plats and k % 4 == 0:
             images[plats[0]] = ["kernel"]
+        if len(plats) == 2:
+            images[plats[1]] = []          # a declared platform whose image table is (still) empty
+
     return {"layered": k % 3 == 1, "arch": arch, "platforms": plats, "paths": paths, "images": images, "stage2": k % 3, "media": k % 2 == 1,
             "checksums": [["images/boot.iso", "./a//b/../c"][: 1 + k % 2], []][k % 4 // 2]}
 
